@@ -24,7 +24,11 @@ LEVEL = "exploration"
 RULE = ("(1) deterministic prime/branch-A/branch-B scenario for every builder-decorated method discovered in the live "
         "modules, under each of the six dialect classes; (2) seeded random call forests of 8-25 top-level actions per "
         "dialect class in which receivers are re-used (branching) and live objects are passed as arguments (sharing); "
-        "subquery/self-join arguments carry explicit aliases so that no auto-alias exemption is needed. A program is "
+        "subquery/self-join arguments carry explicit aliases so that no auto-alias exemption is needed; (3) the sibling-"
+        "interference matrix (pvm/siblings.py): for SELECT/INSERT/UPDATE/DELETE/CREATE receivers in 1-4 primed states, every "
+        "ordered pair (A, B) of ~20-60 continuations that share one tiny vocabulary (alias x, tables t1..t3, index i1, CTE c1): "
+        "r=prime; x=A(r); y=B(r) (and the chain y=B(x); z=B(r)); each object must equal the rebuild of its own sub-program, "
+        "including whether the call raises (quick: each pair under one dialect class, rotating with the seed; thorough: all six). A program is "
         "non-trivial when at least one receiver got two or more continuations; distinct = distinct program hash")
 ASSUMPTIONS = [
     "effects invisible to every render under the six contexts and to alias/is_aggregate/tables/fields are not observed",
